@@ -605,7 +605,7 @@ class Exec(Verifier):
                 self.hset(k, self.fresh("H_" + k, self.st.heap[k].sort()))
             self.havoc([], {}, allocates=True)
         else:
-            self.havoc(spec.modifies, dict(self.st.loc), allocates=True)
+            self.havoc(spec.modifies, dict(self.st.loc), allocates=('$alloc' in spec.modifies))
         head_heap = dict(self.st.heap)
         saved_loop_heap = getattr(self, "loop_heap", None)
         self.loop_heap = pre_heap
@@ -826,7 +826,7 @@ class Exec(Verifier):
         try:
             # logic axioms
             for cl in self.reg.logic.axioms:
-                if not cl.props or set(cl.props) & set(con.all_props()) or True:
+                if cl.label in con.uses:
                     self.frame = _dummy_frame(con)
                     self.assume(self.spec(cl.expr, {}))
             i0 = 0
@@ -892,7 +892,6 @@ class Exec(Verifier):
             raise Unsupported("break/continue outside loop")
 
     def check_post(self, con, res):
-        self.cur_stmt = None
         env = dict(self.st.loc)
         for k, v in self.entry_loc.items():
             env[k] = v
@@ -906,7 +905,6 @@ class Exec(Verifier):
             self.oblige("ensures %s" % cl.label, "post", self.spec(cl.expr, env), cl.props or con.props, text=cl.expr)
 
     def check_raise(self, con, exc):
-        self.cur_stmt = None
         env = dict(self.st.loc)
         for k, v in self.entry_loc.items():
             env[k] = v
@@ -931,6 +929,38 @@ class Exec(Verifier):
             return
         for cl in con.raises[matched]:
             self.oblige("on %s: %s" % (matched, cl.label), "exc-post", self.spec(cl.expr, env), cl.props or con.props, text=cl.expr)
+
+
+def verify_lemma(eng, lem):
+    """-> list of Obligation for a Lemma."""
+    from .contract import Contract
+    con = Contract("ext::lemma." + lem.name, props=lem.props)
+    eng.cur_func = "lemma " + lem.name
+    eng.cur_props = lem.props
+    eng.obligations, eng.probes, eng.trivial, eng.ghost_assumes = [], [], 0, []
+    eng.reset_run([])
+    eng.exact_excs = set()
+    eng.frame = _dummy_frame(con)
+    eng.frame_params = set()
+    eng.entry_heap, eng.entry_loc = {}, {}
+    for cl in eng.reg.logic.axioms:
+        if cl.label in lem.uses:
+            eng.assume(eng.spec(cl.expr, {}))
+    env = {}
+    for nme, tstr in lem.vars.items():
+        t_ = ty(tstr)
+        pv = V(t_, eng.fresh(nme, sort_of(t_)))
+        eng.assume_type(pv)
+        env[nme] = pv
+    for cl in lem.requires:
+        eng.assume(eng.spec(cl.expr, env))
+    eng.probes.append(("lemma %s hypotheses satisfiable" % lem.name, list(eng.st.pc)))
+    eng.cur_stmt = None
+    base_pc = list(eng.st.pc)
+    for cl in lem.ensures:
+        eng.st.pc = list(base_pc)
+        eng.oblige("lemma %s: %s" % (lem.name, cl.label), "lemma", eng.spec(cl.expr, env), lem.props, text=cl.expr)
+    return eng.obligations, eng.probes
 
 
 def _dummy_frame(con):
